@@ -61,6 +61,12 @@ def single_edits(base, new_letters='abc'):
             add('wrap-seq', _replace(base, path, lambda n: ('seq', 1, 1, (n,))))
             add('wrap-cho', _replace(base, path, lambda n: ('cho', 1, 1, (n,))))
         if M.is_leaf(node):
+            # 10. replace an element particle by a group of two copies of it (the counts multiply)
+            if node[0] == 'el':
+                for gk in ('seq', 'cho'):
+                    for gocc in ((1, 1), (1, 2), (0, 2)):
+                        add('leaf-to-group', _replace(base, path, lambda n, gk=gk, gocc=gocc: (
+                            gk, gocc[0], gocc[1], (M.el(n[4], 1, 1), M.el(n[4], 1, 1)))))
             # 9. rename / retarget the leaf
             if node[0] == 'el':
                 for c in new_letters:
@@ -72,7 +78,7 @@ def single_edits(base, new_letters='abc'):
                 # 5. wildcard replaced by an element it admits / does not admit, or by another wildcard
                 for c in ('a', 'c'):
                     add('wild-to-el', _replace(base, path, lambda n, c=c: M.el(c, n[1], n[2])))
-                for w in ('~any', '~tns', '~other', '~local'):
+                for w in ('~any', '~tns', '~other', '~local', '~notT', '~notL', '~notTL'):
                     if w != node[4]:
                         add('wild-to-wild', _replace(base, path, lambda n, w=w: M.wild(w, n[1], n[2])))
         else:
